@@ -411,7 +411,7 @@ func (g *caGen) genLeafUniverse() {
 		if r.Intn(3) == 0 {
 			origin = "oc"
 		}
-		if origin == "" && es[0].name == "" {
+		if es[0].name == "" {
 			// input restriction (DESIGN C03/C14): the first index element is non-empty. Reset
 			// announces each top-level subtree with the root name in the *origin* field, and an
 			// empty origin means "no origin".
